@@ -20,7 +20,9 @@ def kernel(N, W):
 
 def event(dpss, N, NW, k, idx=0):
     ev = {'ev': 'dpss', 'N': int(N), 'nw100': int(round(NW * 100)), 'k': 0 if k is None else int(k)}
-    ok, res = call_guard(dpss, np_int(N, idx), NW, None if k is None else np_int(k, idx + 1))
+    # a whole-number half-bandwidth as one writes it: 4, numpy.int64(4) or 4.0
+    nw_arg = [NW, int(NW), np.int64(int(NW))][idx % 3] if float(NW) == int(NW) else NW
+    ok, res = call_guard(dpss, np_int(N, idx), nw_arg, None if k is None else np_int(k, idx + 1))
     ev['raised'] = not ok
     blank = dict(rows=0, cols=0, nlam=0, orth_q=0, in_range=False, noninc=False, has_kernel=False, conc_q=0, resid_q=0,
                  has_solver=False, lead_q=0, parity_q=0, signs_ok=False)
